@@ -22,7 +22,7 @@ func init() {
 			if tier == "quick" {
 				return 3200
 			}
-			return 16000
+			return 48000
 		},
 		Run: runC04,
 		Required: []string{"matings.mate_multipoint", "matings.mate_multipoint_avg", "matings.mate_singlepoint", "pattern.matching",
